@@ -43,6 +43,9 @@ def variant(vseed):
         # the raw client re-uses one token for all its requests (a slow one is superseded while its handler still
         # runs) and refreshes its observation on the same token
         "reuse_token": vseed % 2 == 1,
+        # the application cancels one of its client-side observations (the established one, or one whose request is
+        # still waiting for its first response) right before shutdown
+        "cancel_obs": [None, "pending", "established", "pending"][vseed % 4],
         "icmp": r.choice([None, ("10.0.0.10", 5683, 1e-7), ("10.0.0.14", 40000, 1e-7), ("10.0.0.11", 5683, 1e-7), ("10.0.0.13", 5683, 1e-3), ("10.0.0.12", 5683, 1e-7)]),
     }
 
@@ -144,6 +147,10 @@ def run(v, seed, shutdown_at):
         track("blockwise", ctx.request(pm))
         orq = ctx.request(aiocoap.Message(code=aiocoap.GET, uri="coap://10.0.0.13/o", observe=0), handle_blockwise=not v["iter_consumer"] and False)
         orec = track("observe", orq)
+        # a second observation whose request never gets its first response (silent peer)
+        prq = ctx.request(aiocoap.Message(code=aiocoap.GET, uri="coap://10.0.0.10/o-pending", observe=0), handle_blockwise=False)
+        prec = track("observe-pending", prq)
+        prq.observation.register_errback(lambda e: prec.update(obs_end=(loop.time(), e)))
         if v["iter_consumer"]:
 
             async def consume():
@@ -204,6 +211,28 @@ def run(v, seed, shutdown_at):
 
         loop.call_later(0.1, other_request, 0)
 
+        # the second context is a server, too: a raw peer keeps it busy with slow confirmable requests, so that at
+        # every instant it has a handler running and, a quarter of the time, an empty-ACK timer pending
+        other_srv = []
+
+        def o_client(peer, src, m, raw):
+            if m is not None and rc.is_response(m.code) and m.type == rc.CON:
+                peer.send(src, rc.Msg(rc.ACK, 0, m.mid, b"", (), b""))
+
+        po = simnet.RawPeer(net, "10.0.0.20", 40000, o_client)
+        OX = simnet.addr("10.0.0.9", 5683)
+
+        def other_traffic(k):
+            if po.closed:
+                return
+            mid = po.next_mid()
+            other_srv.append({"k": k, "t": loop.time(), "mid": mid, "token": bytes([0x50, k])})
+            po.send(OX, rc.Msg(rc.CON, 2, mid, bytes([0x50, k]), ((11, b"r"),), b"d=0.45;c=69;p=o%d" % k))
+            if k < 36:
+                loop.call_later(0.37, other_traffic, k + 1)
+
+        loop.call_later(0.15, other_traffic, 0)
+
         info = {}
         if shutdown_at is None:
             await asyncio.sleep(14.0)
@@ -242,6 +271,12 @@ def run(v, seed, shutdown_at):
                 if victim:
                     victim[0]["rq"].response.cancel()
                     info["cancelled"] = v["cancel_one"]
+            if v.get("cancel_obs") == "pending":
+                prq.observation.cancel()
+                info["cancelled_obs"] = "pending"
+            elif v.get("cancel_obs") == "established" and not orq.observation.cancelled:
+                orq.observation.cancel()
+                info["cancelled_obs"] = "established"
             await ctx.shutdown()
             info["t_ret"] = loop.time()
             info["log_mark_ret"] = len(net.log)
@@ -263,7 +298,7 @@ def run(v, seed, shutdown_at):
         info["handlers"] = list(hlog)
         for r_ in recs:
             r_.pop("rq", None)
-        box.update(net=net, X=X, recs=recs, other=other_recs, info=info, obs_count=obsres.count)
+        box.update(net=net, X=X, recs=recs, other=other_recs, info=info, obs_count=obsres.count, other_srv=other_srv, OX=OX, PO=po.addr)
         if ctask is not None and not ctask.done():
             ctask.cancel()
         if shutdown_at is None:
@@ -323,7 +358,7 @@ def judge(v, res, box, when, rep, case, T):
                 pass  # cancelled by the application itself just before shutdown
             elif not isinstance(exc, error.Error):
                 rep.violation("request-failed-with-non-library-error/%s/%s" % (r["name"].split("-")[0], type(exc).__name__), "an outstanding request was failed with an exception outside the library's error hierarchy at shutdown", wit(exc=repr(exc)), case)
-        if r["name"] == "observe" and r["done"][1] is None:
+        if r["name"] == "observe" and r["done"][1] is None and info.get("cancelled_obs") != "established":
             # the observation was established (or not yet): it must have been terminated too
             if r["obs_end"] is None:
                 rep.violation("observation-not-terminated", "a client-side observation got no terminal signal although its context was shut down", wit(), case)
@@ -381,6 +416,21 @@ def judge(v, res, box, when, rep, case, T):
     for r in box["other"]:
         if r["done"] is None or r["done"][1] is not None or r["done"][2] != b"other-ok" or abs((r["done"][0] - r["t"]) - 0.402) > 1e-6:
             rep.violation("other-context-affected", "an exchange of a second context in the same process did not complete normally", wit(other=repr(r)), case)
+            break
+    # ... and as a server: every request gets its empty ACK at EMPTY_ACK_DELAY and its separate response when the
+    # handler is done, whatever happened to the context that was shut down
+    OX, PO = box["OX"], box["PO"]
+    osends = [e for e in net.log if e.kind == "send" and e.src == OX and e.dst == PO and e.msg is not None]
+    for q in box["other_srv"]:
+        t_arr = q["t"] + 0.001
+        acks = [e for e in osends if e.msg.mid == q["mid"] and e.msg.type == rc.ACK]
+        resp = {}
+        for e in osends:
+            if e.msg.token == q["token"] and rc.is_response(e.msg.code):
+                resp.setdefault(e.msg.mid, e)
+        ok = len({e.data for e in acks}) == 1 and acks[0].msg.code == 0 and abs(acks[0].t - (t_arr + 0.1)) < 1e-6 and len(resp) == 1 and abs(list(resp.values())[0].t - (t_arr + 0.45)) < 1e-6 and list(resp.values())[0].msg.payload == b"o%d" % q["k"]
+        if not ok:
+            rep.violation("other-context-affected/as-server", "a request served by a second context in the same process did not get its empty ACK at EMPTY_ACK_DELAY and its separate response at handler completion", wit(request=repr(q), acks=[(round(e.t - t_arr, 6), e.msg.code) for e in acks], responses=[(round(e.t - t_arr, 6), e.msg.code) for e in resp.values()]), case)
             break
     kinds = tuple(sorted(k for k, n in pend.items() if n))
     rep.case((repr(sorted(v.items())), tuple(sorted((k, min(n, 3)) for k, n in pend.items() if n)), when[1]), nontrivial=bool(kinds))
